@@ -1,25 +1,36 @@
-(* C05: a schedule on which the faithful model (Model/Cluster.v) - and, replayed by the c05 harness,
-   the real brokers - end with routing that differs from the ground truth although every link has
-   drained and two rounds of full-state exchange have run. *)
+(* C05: the schedules that were the witnesses of the findings F4 / F5 (delta-counting merge), F7
+   (returning peer) and F7c (tombstone under the local name, colliding connection ids) - all
+   repaired in /repo (d18db5e, 8d5851c, b897b2e; the model follows the code).  They are kept as
+   regression examples: on the current model each ends, after draining, with every broker's remote
+   entries equal to the ground truth.  The c05 harness replays them on the real brokers. *)
 From stdpp Require Import gmap.
 From Coq Require Import ZArith List.
 From Emitter Require Import Model.Lww Model.Cluster.
 Import ListNotations.
 Local Open Scope N_scope.
 
-(* F7: broker 3 sees broker 2 go away while broker 2's client is subscribed to channel 1, and the
-   connection comes back (full-state exchange).  Swarm.onPeerOffline drops the member and its trie
-   entries; the member is only created again by a payload that changes one of that peer's entries -
-   the full state brings nothing new about broker 2, so broker 3 keeps not forwarding channel 1 to
-   broker 2 although its subscriber is still there.  (The tombstone onPeerOffline writes lands under
-   broker 3's own name, because NotifyUnsubscribe overwrites the event's peer: garbage entries that
-   no longer harm since Swarm.merge counts transitions of the merged state.) *)
+Definition drain2 : list ev := [EDeliver 1 2; EDeliver 2 1].
 Definition drain3 : list ev := [EDeliver 1 2; EDeliver 1 3; EDeliver 2 1; EDeliver 2 3; EDeliver 3 1; EDeliver 3 2].
+
+Definition routing_ok (w : world) : bool :=
+  forallb (fun b => let r := bk_remote (get_broker w b) in let t := truth_remote w b in
+                    forallb (fun x => existsb (pair_eqb x) t) r && forallb (fun x => existsb (pair_eqb x) r) t)
+          (names w).
+
+(* subscribe; deliver; unsubscribe and re-subscribe coalesced on the link; deliver; unsubscribe *)
+Definition f5_schedule : list ev :=
+  [ESub 2 3 2 1000; EDeliver 2 1; EUnsub 2 3 2 1010; ESub 2 3 2 1020; EDeliver 2 1; EUnsub 2 3 2 1030; EDeliver 2 1]
+  ++ [EGossip 1 2; EGossip 2 1] ++ drain2.
+(* broker 3 sees broker 2 go away and come back *)
 Definition f7_schedule : list ev :=
   [ESub 3 4 1 1040; EDeliver 3 1; EDeliver 3 2; ESub 2 2 1 1050; EDeliver 2 3; EDeliver 2 1;
    EOffline 3 2 1080; EOnline 3 2] ++ drain3 ++ drain3 ++ drain3.
-Theorem C05_returning_peer_refuted :
-  let w := run [1; 2; 3] f7_schedule in
-  quiet w = true /\ bk_remote (get_broker w 3) = []
-  /\ receivers w 3 1 = [(3, 4)] /\ live_subscribers w 1 = [(2, 2); (3, 4)].
+(* two brokers whose clients have the same connection id on one channel; one sees the other go away *)
+Definition f7c_schedule : list ev :=
+  [ESub 1 1 0 1000; ESub 2 1 0 1010; EDeliver 1 2; EDeliver 2 1; EOffline 1 2 1020; EOnline 1 2] ++ drain2 ++ drain2.
+
+Example C05_former_witnesses_route_correctly :
+  (let w := run [1; 2] f5_schedule in quiet w && routing_ok w) = true
+  /\ (let w := run [1; 2; 3] f7_schedule in quiet w && routing_ok w) = true
+  /\ (let w := run [1; 2] f7c_schedule in quiet w && routing_ok w) = true.
 Proof. vm_compute. repeat split. Qed.
